@@ -1,11 +1,14 @@
 package main
 
-// Stake-locking transactions (miner apply / add stake) and the refund mover, at ledger level.
+// Miner transactions (apply / add stake / refund / OperatorNode) and the refund mover.
+// The harness keeps only a directory of the miners it created (id bytes, last known account) so that
+// generators can aim at them; whether a transaction succeeds is decided by the code and by the model.
 
 import (
 	"encoding/json"
 	"fmt"
 	"math/big"
+	"strconv"
 	"strings"
 
 	"com.tuntun.rangers/node/src/common"
@@ -14,83 +17,65 @@ import (
 )
 
 type minerRec struct {
+	seq     uint64
 	id      []byte
 	account common.Address
+	typ     byte
 }
 
-// QueueLock queues a MinerApply (apply=true) or MinerAdd transaction locking n whole tokens.
-// registryOk — everything AddMiner/AddStake test besides the balance — is known by construction.
-func (w *World) QueueLock(g *Gen, src common.Address, n uint64, apply bool, spoil int) *QTx {
-	var m types.Miner
-	ok := true
-	typ := int32(types.TransactionTypeMinerApply)
-	if apply {
-		w.minerSeq++
-		m.Id = []byte(fmt.Sprintf("verif-c06-miner-%08d-%016x", w.minerSeq, g.r.U64()))
-		m.PublicKey = []byte{1, 2, 3}
-		m.VrfPublicKey = []byte{4, 5, 6}
-		m.Type = common.MinerTypeValidator
-		if g.r.Bool() {
-			m.Type = common.MinerTypeProposer
-		}
-		m.Stake = n
-		m.Account = src[:]
-		switch spoil {
-		case 1:
-			m.Type = 7
-			ok = false
-		case 2:
-			m.PublicKey = nil
-			ok = false
-		}
-		if (m.Type == common.MinerTypeValidator && n < common.ValidatorStake) || (m.Type == common.MinerTypeProposer && n < common.ProposerStake) {
-			ok = false
-		}
-		for _, r := range w.miners {
-			if r.account == src {
-				ok = false // account already owns a miner
-			}
-		}
-		if ok {
-			w.pendingMiners = append(w.pendingMiners, minerRec{id: m.Id, account: src})
-		}
-	} else {
-		typ = types.TransactionTypeMinerAdd
-		m.Stake = n
-		if len(w.miners) > 0 && spoil == 0 {
-			m.Id = w.miners[g.r.Intn(len(w.miners))].id
-		} else {
-			m.Id = []byte("verif-c06-no-such-miner")
-			ok = n == 0 // AddStake(delta = 0) answers true before looking the miner up
+func minerID(seq uint64) []byte { return []byte(fmt.Sprintf("verif-c06-miner-%016d", seq)) }
+
+func (w *World) findMiner(seq uint64) *minerRec {
+	for i := range w.miners {
+		if w.miners[i].seq == seq {
+			return &w.miners[i]
 		}
 	}
+	return nil
+}
+
+// QueueApply queues a MinerApply transaction (type 2): src pays `stake` whole tokens for a miner `seq`
+// of type typ whose account is `account`.
+func (w *World) QueueApply(src common.Address, seq uint64, typ byte, stake uint64, account common.Address, keysOk bool) *QTx {
+	m := types.Miner{Id: minerID(seq), PublicKey: []byte{1, 2, 3}, VrfPublicKey: []byte{4, 5, 6}, Type: typ, Stake: stake, Account: account[:]}
+	if !keysOk {
+		m.PublicKey = nil
+	}
 	bs, _ := json.Marshal(m)
-	tx := w.nextTx(&types.Transaction{Source: src.GetHexString(), Type: typ, Data: string(bs)})
-	q := &QTx{line: fmt.Sprintf("tx lock %s %d %d", hexAddr(src), n, b2i(ok)), tx: tx, feat: map[string]bool{"lock": true},
-		locked: new(big.Int).Mul(new(big.Int).SetUint64(n), oneRPG)}
+	tx := w.nextTx(&types.Transaction{Source: src.GetHexString(), Type: types.TransactionTypeMinerApply, Data: string(bs)})
+	q := &QTx{line: fmt.Sprintf("tx apply %s %d %d %d %s %d", hexAddr(src), seq, typ, stake, hexAddr(account), b2i(keysOk)), tx: tx,
+		feat: map[string]bool{"miner": true}}
+	q.onSuccess = func() {
+		if w.findMiner(seq) == nil {
+			w.miners = append(w.miners, minerRec{seq: seq, id: minerID(seq), account: account, typ: typ})
+		}
+	}
 	w.queue = append(w.queue, q)
 	return q
 }
 
-// Refund pushes an escrow list through the real RefundManager (Add, then CheckAndMove at that height).
-func (w *World) Refund(list [][2]interface{}) {
-	w.refundSeq++
-	h := 1000000 + w.refundSeq
-	var rl types.RefundInfoList
-	parts := []string{}
-	for _, e := range list {
-		a := e[0].(common.Address)
-		v := e[1].(*big.Int)
-		rl.AddRefundInfo(a.Bytes(), new(big.Int).Set(v))
-		parts = append(parts, hexAddr(a), v.String())
+// QueueAdd queues a MinerAdd transaction (type 5).
+func (w *World) QueueAdd(src common.Address, seq uint64, delta uint64) *QTx {
+	m := types.Miner{Id: minerID(seq), Stake: delta}
+	bs, _ := json.Marshal(m)
+	tx := w.nextTx(&types.Transaction{Source: src.GetHexString(), Type: types.TransactionTypeMinerAdd, Data: string(bs)})
+	q := &QTx{line: fmt.Sprintf("tx add %s %d %d", hexAddr(src), seq, delta), tx: tx, feat: map[string]bool{"miner": true}}
+	w.queue = append(w.queue, q)
+	return q
+}
+
+// QueueRefund queues a MinerRefund transaction (type 3); amount is the raw string of the JSON field.
+func (w *World) QueueRefund(src common.Address, seq uint64, amount string, signed bool) *QTx {
+	d := map[string]string{"Amount": amount, "MinerId": common.ToHex(minerID(seq))}
+	bs, _ := json.Marshal(d)
+	tx := w.nextTx(&types.Transaction{Source: src.GetHexString(), Type: types.TransactionTypeMinerRefund, Data: string(bs)})
+	if signed {
+		tx.Sign = common.BytesToSign(make([]byte, 65))
 	}
-	service.RefundManagerImpl.Add(map[uint64]types.RefundInfoList{h: rl}, w.adb)
-	service.RefundManagerImpl.CheckAndMove(h, w.adb)
-	line := fmt.Sprintf("refund %d", len(list))
-	if len(parts) > 0 {
-		line += " " + strings.Join(parts, " ")
-	}
-	w.out.Emit(line, w.stateLine())
+	q := &QTx{line: fmt.Sprintf("tx refund %s %d %s %d", hexAddr(src), seq, strHex(amount), b2i(signed)), tx: tx,
+		feat: map[string]bool{"miner": true, "refund": true}}
+	w.queue = append(w.queue, q)
+	return q
 }
 
 // installMainNode puts a stand-in for the main-node contract at common.MainNodeContract(): it emits four
@@ -107,22 +92,54 @@ func (w *World) installMainNode() {
 	w.adb.SetCode(common.MainNodeContract(), code)
 }
 
-func addrPlusOne(a common.Address) common.Address {
+func nodeAccount(a common.Address) common.Address {
 	a[0] ^= 0xaa
 	return a
 }
 
-// QueueNode queues an OperatorNode transaction (type 7): the sender, owner of a miner, pays 10 RPG to have
-// its miner's account replaced by a contract account. spoil = sender owns no miner.
+// QueueNode queues an OperatorNode transaction (type 7).
 func (w *World) QueueNode(src common.Address) *QTx {
-	ok := false
-	for _, r := range w.miners {
-		if r.account == src {
-			ok = true
+	tx := w.nextTx(&types.Transaction{Source: src.GetHexString(), Type: types.TransactionTypeOperatorNode})
+	q := &QTx{line: fmt.Sprintf("tx node %s %s 1", hexAddr(src), hexAddr(nodeAccount(src))), tx: tx, feat: map[string]bool{"miner": true, "node": true}}
+	q.onSuccess = func() {
+		for j := range w.miners {
+			if w.miners[j].account == src {
+				w.miners[j].account = nodeAccount(src)
+			}
 		}
 	}
-	tx := w.nextTx(&types.Transaction{Source: src.GetHexString(), Type: types.TransactionTypeOperatorNode})
-	q := &QTx{line: fmt.Sprintf("tx node %s %d", hexAddr(src), b2i(ok)), tx: tx, feat: map[string]bool{"node": true}}
 	w.queue = append(w.queue, q)
 	return q
+}
+
+// stakedTokens: whole tokens recorded as stake for every miner this harness ever created.
+func (w *World) stakedTokens() *big.Int {
+	sum := new(big.Int)
+	for seq := uint64(1); seq <= w.minerSeq; seq++ {
+		if m := service.MinerManagerImpl.GetMiner(minerID(seq), w.adb); m != nil {
+			sum.Add(sum, new(big.Int).SetUint64(m.Stake))
+		}
+	}
+	return sum
+}
+
+// Refund pushes an escrow list through the real RefundManager (Add, then CheckAndMove at that height).
+func (w *World) Refund(list [][2]interface{}) {
+	w.refundSeq++
+	h := 1000000000 + w.refundSeq
+	var rl types.RefundInfoList
+	parts := []string{}
+	for _, e := range list {
+		a := e[0].(common.Address)
+		v := e[1].(*big.Int)
+		rl.AddRefundInfo(a.Bytes(), new(big.Int).Set(v))
+		parts = append(parts, hexAddr(a), v.String())
+	}
+	service.RefundManagerImpl.Add(map[uint64]types.RefundInfoList{h: rl}, w.adb)
+	service.RefundManagerImpl.CheckAndMove(h, w.adb)
+	line := "refund " + strconv.Itoa(len(list))
+	if len(parts) > 0 {
+		line += " " + strings.Join(parts, " ")
+	}
+	w.out.Emit(line, w.stateLine())
 }
